@@ -109,6 +109,10 @@ impl<R: Read + Seek> ReadBox<&mut R> for Avc1Box {
             }
             let header = BoxHeader::read(reader)?;
             let BoxHeader { name, size: s } = header;
+            // A size zero BoxHeader never advances, which can result in dead-loop.
+            if s == 0 {
+                return Err(Error::InvalidData("avcc not found"));
+            }
             if s > size {
                 return Err(Error::InvalidData(
                     "avc1 box contains a box with a larger size than it",
